@@ -1,4 +1,4 @@
-import AranyaV.Proofs.TrxClient
+import AranyaV.Proofs.TrxRoot
 /-!
 # C09 — The head set is exactly the frontier
 
@@ -69,6 +69,29 @@ theorem heads_cover (gid : Nat) (ops : List Op) {st : Store}
   intro x hx
   obtain ⟨t, ht, hr⟩ := reach_tip hs.wf x hx
   exact ⟨t, (hs.heads t).mpr ht, hr⟩
+
+/-- **init_anc_all.**  After any history the committed graph starts with the init command (the
+parentless command whose id is the graph id) and that command is an ancestor of every head other
+than itself (`Spec.anc` is the executable ancestry test of `Spec.Graph`). -/
+theorem init_anc_all (gid : Nat) (ops : List Op) {st : Store}
+    (hst : (run { gid := gid } ops).store = some st) :
+    ∃ c0 rest, st.graph = c0 :: rest ∧ c0.cmd.id = gid ∧ c0.cmd.parents = [] ∧
+      ∀ h ∈ st.heads, h = gid ∨ anc (cmds st.graph) gid h = true := by
+  have hs := (run_inv (ClientInv.init gid) ops).store st hst
+  have hr := (run_root (ClientInv.init gid) (RootInv.init gid) ops).store st hst
+  rw [run_gid] at hr
+  obtain ⟨c0, rest, hg, hid, hp, hrest⟩ := hr
+  refine ⟨c0, rest, hg, hid, hp, ?_⟩
+  intro h hh
+  by_cases e : h = gid
+  · exact Or.inl e
+  · right
+    rw [anc_iff hs.wf]
+    refine ⟨fun e' => e e'.symm, ?_⟩
+    have hmem : h ∈ ids (cmds st.graph) := ((hs.heads h).mp hh).1
+    have := root_reaches hs.wf (c0 := c0.cmd) (rest := cmds rest) (by rw [hg]; rfl)
+      (by intro d hd; simp only [cmds, List.mem_map] at hd; obtain ⟨x, hx, rfl⟩ := hd; exact hrest x hx) h hmem
+    rw [hid] at this; exact this
 
 /-! ## non-vacuity: a concrete history with a duplicate, a deep parent, a rejected command, a
 flush and a merge of two tips -/
